@@ -247,7 +247,7 @@ def special_c16(res, tier, seed, workdir, stats):
     if getattr(res, "facts", None):
         clo, why = portable_closure(res.facts)
         extra = [f for f in res.facts if f["file"] in clo and f["file"] not in PORTABLE_FILES and
-                 (f["kind"] in ("unsafe", "unsafe_attr", "extern_block", "ptr") or
+                 (f["kind"] in ("unsafe", "unsafe_attr", "extern_block") or
                   (f["kind"] in ("lint", "crate_attr") and "unsafe_code" in f["detail"] and not re.match(r"^(inner|outer) (deny|forbid)\(unsafe_code\)$", f["detail"])))]
         res.cov["portable_closure_files"] = clo
         if extra:
